@@ -3,6 +3,16 @@ import re
 from .core import chain, peel, phi_alts, is_call, walk
 
 
+def _payload_of(nv, pl):
+    """value of `(local as V).0` when the local holds a value built on this path whose single field is known"""
+    pr = pl["proj"]
+    if isinstance(pr[0], dict) and "downcast" in pr[0] and isinstance(pr[1], dict) and pr[1].get("f") == 0:
+        v = nv.get(pl["l"])
+        if isinstance(v, tuple) and v and v[0] == "v" and len(v) > 3 and v[2] == pr[0]["downcast"]:
+            return v[3]
+    return None
+
+
 def explore(body, start_bb, root_is, mark_pred, init_constraints=None, max_paths=4000, stop_pred=None,
             switch_hook=None):
     """Enumerate acyclic paths from start_bb to blocks without successors.
@@ -29,18 +39,39 @@ def explore(body, start_bb, root_is, mark_pred, init_constraints=None, max_paths
                     nv = dict(vals)
                 if "agg" in rv_ and rv_["agg"]["kind"] == "adt" and rv_["agg"].get("variant"):
                     # enum value built on this path: later matches on it follow that variant only
-                    nv[l_] = ("v", rv_["agg"]["adt"], rv_["agg"]["variant"])
+                    pay_ = None
+                    if len(rv_["ops"]) == 1:
+                        op0_ = rv_["ops"][0].get("move") or rv_["ops"][0].get("copy")
+                        if op0_ is not None and not op0_["proj"] and isinstance(nv.get(op0_["l"]), tuple) and nv[op0_["l"]][0] == "v":
+                            pay_ = nv[op0_["l"]]
+                        elif op0_ is not None and len(op0_["proj"]) == 2:
+                            pay_ = _payload_of(nv, op0_)
+                    nv[l_] = ("v", rv_["agg"]["adt"], rv_["agg"]["variant"], pay_)
                     nv.pop(("a", l_), None)
                     continue
+                if "use" in rv_:
+                    plp_ = rv_["use"].get("copy") or rv_["use"].get("move")
+                    if plp_ is not None and len(plp_["proj"]) == 2:
+                        pv_ = _payload_of(nv, plp_)
+                        if pv_ is not None:
+                            nv[l_] = pv_
+                            nv.pop(("a", l_), None)
+                            continue
                 if "discr" in rv_ and not rv_["discr"]["proj"] and isinstance(nv.get(rv_["discr"]["l"]), tuple) \
                         and nv[rv_["discr"]["l"]][0] == "v":
-                    _, adt_, var_ = nv[rv_["discr"]["l"]]
+                    adt_, var_ = nv[rv_["discr"]["l"]][1], nv[rv_["discr"]["l"]][2]
                     dv_ = None
                     for vv_ in body.facts.adts.get(adt_, {}).get("variants", []):
                         if vv_["name"] == var_:
                             dv_ = vv_["discr"]
                     if dv_ is not None:
                         nv[l_] = dv_
+                        continue
+                if "un" in rv_ and rv_["un"] == "Not":
+                    a_ = rv_["a"].get("copy") or rv_["a"].get("move")
+                    if a_ is not None and not a_["proj"] and a_["ty"] == "bool" and nv.get(a_["l"]) in (0, 1, True, False):
+                        nv[l_] = 1 - int(nv[a_["l"]])
+                        nv.pop(("a", l_), None)
                         continue
                 if c_ is not None and "value" in c_:
                     nv[l_] = c_["value"]
@@ -377,3 +408,42 @@ def must_dataflow(body, gen_edges, kill_block):
                 IN[b] = val
                 changed = True
     return IN
+
+
+def value_on_path(body, path, local=0, upto=None):
+    """term of `local` at the end of `path` (a list of blocks), following whole-local moves / copies (and `!x`) back
+    along the path (so that `tmp = Err(..); ret = move tmp; _0 = move ret` reads Err(..) on that path); deeper
+    operands are the usual flow-insensitive terms"""
+    seq = []   # (local, kind, payload)
+    for pos, bb in enumerate(path):
+        if upto is not None and pos > upto:
+            break
+        for j, s in enumerate(body.blocks[bb]["stmts"]):
+            if s["k"] == "assign" and not s["dst"]["proj"]:
+                seq.append((s["dst"]["l"], "stmt", s["rv"]))
+        c = body.calls.get(bb)
+        if c is not None and not c.dst["proj"]:
+            seq.append((c.dst["l"], "call", bb))
+
+    def val(cur, i, hops):
+        while i >= 0:
+            l, kind, pay = seq[i]
+            if l != cur:
+                i -= 1
+                continue
+            if kind == "call":
+                return body.call_term(pay)
+            rv = pay
+            if hops < 24:
+                if "use" in rv:
+                    pl = rv["use"].get("move") or rv["use"].get("copy")
+                    if pl is not None and not pl["proj"]:
+                        return val(pl["l"], i - 1, hops + 1)
+                if "un" in rv and rv["un"] == "Not":
+                    pl = rv["a"].get("move") or rv["a"].get("copy")
+                    if pl is not None and not pl["proj"]:
+                        return ("un", "Not", val(pl["l"], i - 1, hops + 1))
+            return body.rvalue_term(rv)
+        return body.local_term(cur) if hops else None
+
+    return val(local, len(seq) - 1, 0)
